@@ -15,7 +15,7 @@ RULE = ("every schedule (preemption budget, x86-TSO delays, futex faults) of cal
         "reclamation (use-after-free) oracle")
 ASSUMPTIONS = ["specification flavor states exactly C01's guarantee (assume-guarantee with C01/C02)", "x86-TSO", "vrt futex model",
                "2 CPUs (VRT_NCPUS=2) for per-CPU helpers"]
-DEADLINE = {"quick": 170, "thorough": 1700}
+DEADLINE = {"quick": 200, "thorough": 1700}
 
 
 def jobs(tier):
@@ -28,6 +28,9 @@ def jobs(tier):
     J.append(Job(S, "reclaim", "3,0,0,0", workers=8))
     J.append(Job(S, "reclaim", "2,1,0,0", workers=8))
     J.append(Job(S, "two_enq", "2,0,0,0" if q else "2,1,0,0", workers=8))
+    # a callback queued while the helper's grace period for an earlier batch is in flight needs a grace period of its own
+    J.append(Job(S, "during_gp", "2,0,0,0" if q else "3,0,0,0", workers=8))
+    J.append(Job(S, "during_gp", "1,1,0,0" if q else "2,1,0,0", workers=8))
     J.append(Job(S, "per_thread", "2,0,0,0", workers=8))
     J.append(Job(S, "per_thread", "1,1,0,0" if q else "2,1,0,0", workers=8))
     J.append(Job(S, "per_thread", "2,0,0,0", {"rt": 1}, workers=8))
